@@ -13,6 +13,8 @@ Lemma src_strict : Gen.C02.threshold_strict = true. Proof. reflexivity. Qed.
 Lemma src_num : Gen.C02.threshold_num = 66. Proof. reflexivity. Qed.
 Lemma src_den : Gen.C02.threshold_den = 100. Proof. reflexivity. Qed.
 Lemma src_keep : Gen.C02.events_to_keep = 1000. Proof. reflexivity. Qed.
+Lemma src_abort : Gen.C02.tally_aborts_on_error = true. Proof. reflexivity. Qed.
+Lemma src_bonded : Gen.C02.vote_requires_bonded = true. Proof. reflexivity. Qed.
 
 (** * Lists, maps *)
 Lemma mem_In v l : mem v l = true <-> In v l.
@@ -421,7 +423,7 @@ Lemma vote_ok_parts s v known c : vote_ok s v known c = true ->
   known = true /\ mem v (bonded s) = true /\ batch_precheck s c = true /\ valid_claim c = true /\
   c_nonce c = u64 (val_last s v + 1) /\ c_height (a_claim (vote_att s c)) = c_height c.
 Proof.
-  unfold vote_ok. rewrite !andb_true_iff, !Z.eqb_eq. tauto.
+  unfold vote_ok. rewrite src_bonded. simpl. rewrite !andb_true_iff, !Z.eqb_eq. tauto.
 Qed.
 
 Lemma Inv_vote s v known c : Inv s -> Inv (vote s v known c).
@@ -1299,4 +1301,8 @@ Qed.
 Lemma source_facts :
   Gen.C02.threshold_num = 66 /\ Gen.C02.threshold_den = 100 /\ Gen.C02.threshold_strict = true /\
   Gen.C02.vote_dedup = true /\ Gen.C02.height_before_cursor = true.
+Proof. repeat split; reflexivity. Qed.
+
+Lemma source_facts2 :
+  Gen.C02.tally_aborts_on_error = true /\ Gen.C02.vote_requires_bonded = true /\ Gen.C02.per_chain_store_sites = 15.
 Proof. repeat split; reflexivity. Qed.
